@@ -3,6 +3,11 @@ from .read import SgzReader
 from .utils import coord_to_index
 
 
+def axis_step(coords):
+    """Increment of a regular axis, an axis with a single entry has no second value to take it from"""
+    return coords[1] - coords[0] if len(coords) > 1 else 1
+
+
 class SubvolumeAccessor(SgzReader):
 
     def __init__(self, file):
@@ -12,13 +17,13 @@ class SubvolumeAccessor(SgzReader):
 
         self.axes_message = f"Inline {self.ilines[0]}:" \
                             f"{self.ilines[-1]}:" \
-                            f"{self.ilines[1] - self.ilines[0]}, " \
+                            f"{axis_step(self.ilines)}, " \
                             f"Crossline {self.xlines[0]}:" \
-                            f"{self.xlines[-1] + self.xlines[1] - self.xlines[0]}:" \
-                            f"{ self.xlines[1] - self.xlines[0]}, " \
+                            f"{self.xlines[-1] + axis_step(self.xlines)}:" \
+                            f"{axis_step(self.xlines)}, " \
                             f"Samples {self.zslices_int[0]}:" \
-                            f"{self.zslices_int[-1] + self.zslices_int[1] - self.zslices_int[0]}:" \
-                            f"{self.zslices_int[1] - self.zslices_int[0]}"
+                            f"{self.zslices_int[-1] + axis_step(self.zslices_int)}:" \
+                            f"{axis_step(self.zslices_int)}"
 
     def __getitem__(self, subscripts):
         il, xl, z = subscripts
@@ -41,22 +46,22 @@ class SubvolumeAccessor(SgzReader):
     @staticmethod
     def _get_index_subscripts(coord_subscript, coords):
         start = 0 if coord_subscript.start is None else coord_to_index(coord_subscript.start, coords)
-        if (coord_subscript.stop is None) or (coord_subscript.stop == coords[-1] + coords[1] - coords[0]):
+        if (coord_subscript.stop is None) or (coord_subscript.stop == coords[-1] + axis_step(coords)):
             stop = len(coords)
         else:
             stop = coord_to_index(coord_subscript.stop, coords)
-        step = 1 if coord_subscript.step is None else coord_subscript.step // (coords[1] - coords[0])
+        step = 1 if coord_subscript.step is None else coord_subscript.step // axis_step(coords)
         return start, step, stop
 
     def _check_subscripts(self, subscript, coords, coord_name):
         # Axes may be descending, compare in axis order
-        sign = 1 if coords[1] - coords[0] > 0 else -1
-        first, end = sign * coords[0], sign * (coords[-1] + coords[1] - coords[0])
+        sign = 1 if axis_step(coords) > 0 else -1
+        first, end = sign * coords[0], sign * (coords[-1] + axis_step(coords))
         if subscript.start is not None and not first <= sign * subscript.start < end:
             raise IndexError(f"{coord_name} start {subscript.start} out of range. Axes are {self.axes_message}")
         if subscript.stop is not None and not first < sign * subscript.stop <= end:
             raise IndexError(f"{coord_name} stop {subscript.stop} out of range. Axes are {self.axes_message}")
-        if subscript.step is not None and not subscript.step % (coords[1] - coords[0]) == 0:
+        if subscript.step is not None and not subscript.step % axis_step(coords) == 0:
             raise IndexError(f"{coord_name} step {subscript.step} invalid. Axes are {self.axes_message}")
 
 
